@@ -291,14 +291,6 @@ def _sample_cases(q):
     for names in _name_orders(3 if q else 4):
         p = len(names)
         for n in range(1, 5 if q else 6):
-            if q:
-                weights = _weight_kinds(n)
-            elif p == 1:
-                weights = _all_weights(n, 3) if n <= 4 else _all_weights(n, 1)
-            elif p == 2:
-                weights = _all_weights(n, 2) if n <= 4 else _weight_kinds(n)
-            else:
-                weights = _all_weights(n, 1) if n <= 3 else _weight_kinds(n)
             for dtype in ('f8', 'i8'):
                 if q and dtype == 'i8' and p > 2:
                     continue
@@ -308,8 +300,17 @@ def _sample_cases(q):
                     spec = ('pat', 5 if q else 7)
                 else:
                     spec = ('pat', 3 if q else (4 if p == 3 else 3))
-                for w in weights:
-                    for order in orders:
+                for order in orders:
+                    weights = _weight_kinds(n)
+                    if not q and dtype == 'f8' and order == 'dfirst':
+                        # thorough: the complete weight-vector product on one (dtype, insertion order) slice
+                        if p == 1:
+                            weights = _all_weights(n, 3) if n <= 4 else _all_weights(n, 1)
+                        elif p == 2:
+                            weights = _all_weights(n, 2) if n <= 4 else _all_weights(n, 1)
+                        elif p == 3 and n <= 4:
+                            weights = _all_weights(n, 1)
+                    for w in weights:
                         cases.append({'kind': 'samples', 'names': names, 'order': order, 'n': n, 'w': w,
                                       'dtype': dtype, 'cols': spec[0], 'k': spec[1]})
     return cases
@@ -845,16 +846,16 @@ def _diag_cases(q, seed):
             add('int', 1, n, None, chunk=81)
             add('mix', 1, n, None if n <= 6 else 3000, chunk=100)
         add('int', 2, 4, None, chunk=1)
-        add('int', 2, 5, None, chunk=1)
-        add('mix', 2, 4, None, chunk=1)
-        add('int', 3, 4, 40, chunk=1)
-        add('int', 4, 4, 8, chunk=1)
+        add('int', 2, 5, 150, chunk=1)
+        add('mix', 2, 4, 150, chunk=1)
+        add('int', 3, 4, 27, chunk=1)
+        add('int', 4, 4, 6, chunk=1)
         for n in (5, 6, 7, 8):
             add('int', 2, n, 120, chunk=1)
             add('mix', 2, n, 60, chunk=1)
-            add('int', 3, n, 22, chunk=1)
-            add('mix', 3, n, 12, chunk=1)
-            add('int', 4, n, 7, chunk=1)
+            add('int', 3, n, 16, chunk=1)
+            add('mix', 3, n, 10, chunk=1)
+            add('int', 4, n, 5, chunk=1)
     return cases
 
 
@@ -961,13 +962,20 @@ def _run(ctx):
         cases = _bolfi_cases(q)
         ctx.run_cases(run_bolfi, cases, 'bolfi', sample_every=max(1, len(cases) // 2))
     if want('history'):
-        depth = 3 if q else 4
-        hists = _histories(depth)
         objs = _hist_objects(q)
+        hists = _histories(3)
         cases = [{'kind': 'hist', 'obj': o, 'ops': h} for o in objs for h in hists]
+        ctx.count(history_objects=len(objs), histories_depth_le3_per_object=len(hists))
+        ctx.extra['history_depth'] = 3
+        if not q:   # depth 4 on a fixed sub-list of the objects of every class
+            deep = [h for h in _histories(4) if len(h) == 4]
+            sub = []
+            for cls, step in (('Sample', 6), ('Smc', 5), ('Bolfi', 3), ('Bsl', 3)):
+                sub += [o for o in objs if o['cls'] == cls][::step]
+            cases += [{'kind': 'hist', 'obj': o, 'ops': h} for o in sub for h in deep]
+            ctx.count(history_objects_depth4=len(sub), histories_depth4_per_object=len(deep))
+            ctx.extra['history_depth'] = '3 for all objects, 4 for %d of them' % len(sub)
         ctx.run_cases(run_hist, cases, 'history', sample_every=max(1, len(cases) // 3))
-        ctx.count(history_objects=len(objs), histories_per_object=len(hists))
-        ctx.extra['history_depth'] = depth
     if want('values'):
         cases = []
         for dtype in ('f8', 'i8'):
